@@ -20,6 +20,10 @@ G: the same runs dump every expression as text with the predicted reports.  The 
    End to end: a sample is rendered into workflows and linted: script positions (run:, script: of
    actions/github-script at any ref, the input key in any letter case) report exactly what the API level reports, non-script positions (env:,
    with: of other actions, other inputs of github-script, if:, name:) never report.
+C: concurrency and reuse (two real outputs): 12 files with distinct untrusted reads linted in ONE Linter.LintFiles
+   call (GOMAXPROCS 4/8/16, repeated), one Linter / one ExprSemanticsChecker reused in sequence, fresh checkers in
+   parallel goroutines: per file / expression exactly the reports it gets alone.  A finding of the (parallel) vector
+   runs counts only if its simplest input fails again when executed alone.
 T: seeded random deep expressions are run on the real code, recorded and validated by TLC.
 """
 import json
@@ -401,6 +405,7 @@ def run(ck, tier):
     rng = random.Random(vplib.seed())
     fs = Findings()
     ck.c11_guards = []
+    ck.c11_unstable = 0
     documented = None
     lint_pool = []          # (text, predicted, api-level real, companion defect?) of applicable vectors
     n_vec = n_na = n_nontrivial = n_diff = n_drift = n_comp = n_comp_rep = 0
@@ -475,6 +480,9 @@ def run(ck, tier):
             else:
                 # the real output satisfies the property on the tree the real parser built, yet differs from the
                 # prediction for the text: report order (drift) or the text was parsed into another tree
+                if it['real'] == it['pred']:
+                    ck.c11_unstable += 1      # the first observation is not reproduced: see concurrency_part / verify_alone
+                    continue
                 n_drift += 1
                 if n_drift <= 3:
                     ck.note('model drift: %r real %s predicted %s (%s)' % (it['t'], it['real'], it['pred'], it['verdict']))
@@ -494,11 +502,27 @@ def run(ck, tier):
                            % (n_na, n_na + n_vec))
     if lint_pool:
         ck.sample({'expression': lint_pool[len(lint_pool) // 3][0], 'predicted_reports': lint_pool[len(lint_pool) // 3][1]})
-    # ---- G: end to end through Linter.Lint
-    lint_part(ck, sd, fs, rng, lint_pool, 2500 if tier == 'quick' else 20000)
-    lint_nonscript_part(ck, sd, fs, rng, lint_pool, 30 if tier == 'quick' else 300)
-    # ---- T: random deep expressions validated by TLC
-    trace_part(ck, sd, fs, documented, 6000 if tier == 'quick' else 40000, tier)
+    # ---- concurrency and reuse (two real outputs)
+    concurrency_part(ck, sd, fs, rng, lint_pool, tier)
+    unstable = verify_alone(ck, sd, fs) + ck.c11_unstable
+    ck.c11_unstable = 0
+    try:
+        # ---- G: end to end through Linter.Lint
+        lint_part(ck, sd, fs, rng, lint_pool, 2500 if tier == 'quick' else 20000)
+        lint_nonscript_part(ck, sd, fs, rng, lint_pool, 30 if tier == 'quick' else 300)
+        # ---- T: random deep expressions validated by TLC
+        trace_part(ck, sd, fs, documented, 6000 if tier == 'quick' else 40000, tier)
+        unstable += verify_alone(ck, sd, fs) + ck.c11_unstable
+    except Inconclusive as e:
+        if not fs.by_site:
+            raise
+        ck.note('a later part of the check could not be completed (%s); the violations found so far stand' % str(e)[:300])
+    if unstable:
+        ck.cov['observations_not_reproduced_alone'] = unstable
+        if not fs.by_site:
+            raise Inconclusive('%d observations differed from the prediction but neither reproduce alone nor in the concurrency part' % unstable)
+        ck.note('%d differing observations of the parallel vector runs do not reproduce when executed alone; they are explained '
+                'by the concurrency findings' % unstable)
     fs.flush(ck)
     if ck.c11_guards and not fs.by_site:
         # a coverage guard counts only when nothing was found: a defect that silences all reports is a violation, not a gap
@@ -563,6 +587,19 @@ def render(pos_tmpl, expr):
     return HEAD + pos_tmpl % expr
 
 
+def lint_panic(ck, sd, fs, c, err):
+    """Linter.Lint panicked on a rendered workflow: a violation if it panics again when linted alone."""
+    fi, fo = os.path.join(sd, 'alone_in.jsonl'), os.path.join(sd, 'alone_out.jsonl')
+    vplib.write_jsonl(fi, [{'id': 0, 'src': c['src']}])
+    vplib.run_harness(['untrusted-lint', fi, fo])
+    o = vplib.read_jsonl(fo)[0]
+    if (o.get('err') or '').startswith('panic'):
+        fs.add('lint:panic', c['expr'], 'position %s: Linter.Lint panics on expression %r (%s): nothing is reported'
+               % (c['pos'], c['expr'], o['err']), {'kind': 'lint', 'pos': c['pos'], 'script': None, 'expr': c['expr'], 'src': c['src']})
+    else:
+        ck.c11_unstable += 1
+
+
 def lint_part(ck, sd, fs, rng, pool, limit):
     if not pool:
         raise Inconclusive('no applicable vector to render')
@@ -590,6 +627,9 @@ def lint_part(ck, sd, fs, rng, pool, limit):
     outs = vplib.read_jsonl(fo)
     same_as_api = script_reported = comp_script_reported = 0
     for c, o in zip(cases, outs):
+        if (o.get('err') or '').startswith('panic'):
+            lint_panic(ck, sd, fs, c, o['err'])
+            continue
         if o.get('err'):
             raise Inconclusive('Lint failed on a rendered workflow: %s\n%s' % (o['err'], c['src']))
         tolerant = c['comp'] or c['pos'] in TOLERANT_POS      # the rendering holds a semantic error of its own
@@ -657,6 +697,9 @@ def lint_nonscript_part(ck, sd, fs, rng, pool, per_pos):
     outs = vplib.read_jsonl(fo)
     tolerated = {}
     for c, o in zip(cases, outs):
+        if (o.get('err') or '').startswith('panic') and c['pos'] is not None:
+            lint_panic(ck, sd, fs, c, o['err'])
+            continue
         if o.get('err'):
             raise Inconclusive('Lint failed on a rendered workflow (%s): %s' % (c['pos'], o['err']))
         if c['pos'] is None:
@@ -685,6 +728,97 @@ def lint_nonscript_part(ck, sd, fs, rng, pool, per_pos):
     ck.cov['nonscript_expressions_per_position'] = per_pos
     ck.cov['nonscript_tolerated_other_diagnostics'] = dict(sorted(tolerated.items(), key=lambda kv: -kv[1])[:6])
     ck.sample({'workflow': cases[-1]['src'], 'position': cases[-1]['pos'], 'expected_reports': []})
+
+
+# ------------------------------------------------------------------------------ concurrency / reuse
+def concurrent_input(sd, rng, pool, nfiles=12, steps=6, nexpr=64, reps=7):
+    good = [x for x in pool if x[2] and x[1] == x[2] and not x[3]]
+    rest = [x for x in pool if not x[2] and not x[3]]
+    rng.shuffle(good)
+    rng.shuffle(rest)
+    if len(good) < nfiles * steps:
+        raise Inconclusive('not enough reported expressions for the concurrency part')
+    files = []
+    for i in range(nfiles):
+        body = HEAD
+        for k in range(steps):
+            e = good[i * steps + k][0]
+            body += (POSITIONS[0][2] if k % 2 == 0 else POSITIONS[2][2]) % e
+        files.append({'name': 'w%02d.yml' % i, 'src': body})
+    exprs = [x[0] for x in good[nfiles * steps:nfiles * steps + nexpr * 3 // 4]] + [x[0] for x in rest[:nexpr // 4]]
+    d = os.path.join(sd, 'conc')
+    os.makedirs(d, exist_ok=True)
+    return {'dir': d, 'files': files, 'exprs': exprs, 'reps': reps}
+
+
+def concurrent_run(sd, inp, procs):
+    """-> (mismatches, crash text or None, summary)"""
+    d = os.path.join(sd, 'conc')
+    os.makedirs(d, exist_ok=True)
+    inp = dict(inp, dir=d, procs=procs)
+    fi, fo = os.path.join(sd, 'conc_in.json'), os.path.join(sd, 'conc_out.json')
+    json.dump(inp, open(fi, 'w'))
+    if os.path.exists(fo):
+        os.remove(fo)
+    p = vplib.run_harness(['untrusted-concurrent', fi, fo], timeout=1200, check=False)
+    if p.returncode != 0 or not os.path.exists(fo):
+        err = p.stderr.decode('utf-8', 'replace')
+        if re.search(r'^(panic:|fatal error:)', err, re.M):
+            return [], err[:1500], None
+        raise Inconclusive('harness untrusted-concurrent failed rc=%s: %s' % (p.returncode, err[-1500:]))
+    out = json.load(open(fo))
+    return out['mismatches'], None, out
+
+
+def concurrency_part(ck, sd, fs, rng, pool, tier):
+    """Two real outputs: per file / per expression, the untrusted reports when linted together with others in one
+    Linter.LintFiles call (GOMAXPROCS 4, 8, 16), in sequence by one reused Linter / ExprSemanticsChecker, or by parallel
+    checkers, equal the reports of the same file / expression handled alone by fresh objects."""
+    inp = concurrent_input(sd, rng, pool, reps=7 if tier == 'quick' else 20)
+    total = 0
+    for procs in (4, 8, 16):
+        mism, crash, out = concurrent_run(sd, inp, procs)
+        if crash:
+            # a crash must reproduce before it counts
+            again = [concurrent_run(sd, inp, procs)[1] for _ in range(2)]
+            if not any(again):
+                raise Inconclusive('the harness crashed once in the concurrency part and not again:\n' + crash)
+            fs.add('concurrency:crash', 'GOMAXPROCS=%d' % procs,
+                   'linting %d files with untrusted reads in one Linter.LintFiles call (GOMAXPROCS=%d) crashes the process '
+                   '(reproduced %d of 3 times): nothing is reported. %s' % (len(inp['files']), procs, 1 + sum(1 for a in again if a),
+                                                                           crash.splitlines()[0]),
+                   {'kind': 'concurrent', 'input': inp, 'procs': procs})
+            continue
+        if out['files_reported'] != len(inp['files']):
+            raise Inconclusive('concurrency part: only %d of %d files are reported when linted alone' % (out['files_reported'], len(inp['files'])))
+        total += out['reps']
+        for m in mism:
+            fs.add('concurrency:%s' % m['mode'], m['item'],
+                   '%s (GOMAXPROCS=%d, repetition %d): %s gets the untrusted reports [%s]; alone, with fresh objects, it gets [%s]'
+                   % ({'lintfiles': 'one Linter.LintFiles call over %d files' % len(inp['files']),
+                       'linter-reuse': 'one Linter reused for several files in sequence',
+                       'checker-reuse': 'one ExprSemanticsChecker reused for several expressions in sequence',
+                       'api-parallel': 'fresh ExprSemanticsCheckers run in parallel goroutines'}[m['mode']],
+                      procs, m['rep'], m['item'], m['got'], m['want']),
+                   {'kind': 'concurrent', 'input': inp, 'procs': procs, 'mode': m['mode']})
+    ck.cov['concurrency'] = {'files_per_LintFiles_call': len(inp['files']), 'LintFiles_repetitions': total,
+                             'expressions': len(inp['exprs']), 'gomaxprocs': [4, 8, 16],
+                             'modes': ['lintfiles', 'linter-reuse', 'checker-reuse', 'api-parallel']}
+    ck.cov['evaluations'] += total * len(inp['files']) + total * len(inp['exprs'])
+
+
+def verify_alone(ck, sd, fs):
+    """A finding of the API level counts only if its simplest input fails again when it is executed alone (one
+    expression, one goroutine); otherwise the first observation depended on what ran at the same time."""
+    dropped = 0
+    for site in list(fs.by_site):
+        text, what, replay = fs.by_site[site]['best']
+        if replay.get('kind') not in ('api', 'lint'):
+            continue
+        if replay_dict(replay, sd) == 0:
+            dropped += fs.by_site[site]['n']
+            del fs.by_site[site]
+    return dropped
 
 
 # ------------------------------------------------------------------------------------- trace
@@ -744,8 +878,27 @@ def trace_part(ck, sd, fs, documented, n, tier):
 
 # ------------------------------------------------------------------------------------- replay
 def replay(path):
-    rp = json.load(open(path))['replay']
-    sd = vplib.subdir('c11r')
+    return replay_dict(json.load(open(path))['replay'], vplib.subdir('c11r'))
+
+
+def replay_dict(rp, sd):
+    if rp['kind'] == 'concurrent':
+        bad = 0
+        for _ in range(3):
+            mism, crash, _ = concurrent_run(sd, rp['input'], rp['procs'])
+            if crash:
+                print('the process crashed: ' + crash.splitlines()[0])
+            for m in mism[:5]:
+                print('%s rep %s: %s got [%s] alone [%s]' % (m['mode'], m['rep'], m['item'], m['got'], m['want']))
+            bad += 1 if (crash or mism) else 0
+        return 1 if bad else 0
+    if rp['kind'] == 'lint' and rp.get('script') is None:
+        fi, fo = os.path.join(sd, 'i.jsonl'), os.path.join(sd, 'o.jsonl')
+        vplib.write_jsonl(fi, [{'id': 0, 'src': rp['src']}])
+        vplib.run_harness(['untrusted-lint', fi, fo])
+        o = vplib.read_jsonl(fo)[0]
+        print('Lint: %s' % (o.get('err') or 'no panic'))
+        return 1 if (o.get('err') or '').startswith('panic') else 0
     if rp['kind'] == 'lint':
         fi, fo = os.path.join(sd, 'i.jsonl'), os.path.join(sd, 'o.jsonl')
         vplib.write_jsonl(fi, [{'id': 0, 'src': rp['src']}])
